@@ -81,7 +81,7 @@ auto vgrad(const quadratic_t& constraint, vector_cmap_t x, vector_map_t gx)
     const auto q = constraint.m_q.vector();
     if (gx.size() == x.size())
     {
-        gx = P * x.vector() + q;
+        gx = 0.5 * (P * x.vector() + P.transpose() * x.vector()) + q;
     }
     return 0.5 * x.vector().dot(P * x.vector()) + q.dot(x.vector()) + constraint.m_r;
 }
